@@ -221,12 +221,12 @@ theorem sem_adjAssign (lhs : ARef) (ts : List Term) (ρ y : Store) :
 `x = Σ ± c_k·y_k` compute the transpose, whatever terms repeat a variable or reference `x`. -/
 theorem isAdj_assign (lhs : ARef) (ts : List Term) (ρ : Store)
     (h : noHiddenAlias lhs ts ρ = true) (hl : lhs.loc ρ ∈ S) (hts : ∀ t ∈ ts, t.ref.loc ρ ∈ S) :
-    IsAdj S (sem (.assign lhs ts) ρ) (sem (adjoint (.assign lhs ts)) ρ) := by
+    IsAdj S (sem (.assign lhs ts) ρ) (sem (seqs (adjAssign lhs ts)) ρ) := by
   have e1 : sem (.assign lhs ts) ρ = fun x => (ts.filter (fun t => !isInc lhs t)).reverse.foldl
         (fun a t => addmul (lhs.loc ρ) (t.ref.loc ρ) (t.k ρ) a)
         (scale (lhs.loc ρ) (ksum (ts.filter (isInc lhs)) ρ) x) := by
     funext x; exact sem_assign_decomp lhs ts ρ x h
-  have e2 : sem (adjoint (.assign lhs ts)) ρ = fun y =>
+  have e2 : sem (seqs (adjAssign lhs ts)) ρ = fun y =>
       scale (lhs.loc ρ) (ksum (ts.filter (isInc lhs)) ρ)
         ((ts.filter (fun t => !isInc lhs t)).foldl
           (fun a t => addmul (t.ref.loc ρ) (lhs.loc ρ) (t.k ρ) a) y) := by
